@@ -80,10 +80,17 @@ Definition waw (sw : list K) (A : list (list K)) : list (list K) :=
   map2 (fun si row => map2 (fun aij sj => (si * aij) * sj) row sw) sw A.
 (* n_mean = np.sum(means by mode) *)
 Definition n_mean (means : list K) : K := ksum means.
-(* mean_clicks_by_mode: the determinant of the 2x2 block [[Q[k,k],Q[k,k+m]],[Q[k+m,k],Q[k+m,k+m]]] *)
+(* mean_clicks_by_mode: the (complex) determinant of the 2x2 block [[Q[k,k],Q[k,k+m]],[Q[k+m,k],Q[k+m,k+m]]],
+   Q given by its real and imaginary parts *)
 Definition qget (Q : list (list K)) (i j : nat) : K := nth j (nth i Q []) 0.
-Definition click_dets (m : nat) (Q : list (list K)) : list K :=
-  map (fun k => (qget Q k k * qget Q (k + m)%nat (k + m)%nat) - (qget Q k (k + m)%nat * qget Q (k + m)%nat k)) (seq O m).
+Definition click_dets (m : nat) (Qr Qi : list (list K)) : list (K * K) :=
+  map (fun k =>
+    let km := (k + m)%nat in
+    let ar := qget Qr k k in let ai := qget Qi k k in
+    let br := qget Qr k km in let bi := qget Qi k km in
+    let cr := qget Qr km k in let ci := qget Qi km k in
+    let dr := qget Qr km km in let di := qget Qi km km in
+    (((ar * dr) - (ai * di)) - ((br * cr) - (bi * ci)), ((ar * di) + (ai * dr)) - ((br * ci) + (bi * cr)))) (seq O m).
 (* cbar_k = 1 - det_k ** (-0.5); rs = the values of ** (-0.5) *)
 Definition click_means (rs : list K) : list K := map (fun r => 1 - r) rs.
 
